@@ -41,7 +41,8 @@ def gen(seed, tier="quick"):
     r = random.Random(seed)
     if r.random() < 0.7:
         cfg = BC.gen_breaker_cfg(r)
-        return {"kind": "breaker_hist", "grid": BC.U, "seed": seed, "cfg": cfg, "ops": BC.gen_breaker_ops(r, cfg), "base_us": r.choice([0, 8 * BC.U, 4096 * BC.U])}
+        return {"kind": "breaker_hist", "grid": BC.U, "seed": seed, "cfg": cfg, "ops": BC.gen_breaker_ops(r, cfg), "base_us": r.choice([0, 8 * BC.U, 4096 * BC.U]),
+                "sibling": BC.maybe_sibling(r, cfg)}
     return BC.gen_policy_history(seed, {"max_calls": 8}, modes=("sync",))
 
 
